@@ -408,8 +408,9 @@ class C10(E1Check):
                     def __len__(self) -> int:
                         return 0
 
-                    def __call__(self, ev: Any) -> bool:
-                        return f(ev)
+                    def __call__(self, ev: Any) -> Any:
+                        # "truthy value" contract: the verdict is a truthy / falsy NON-bool (like a re.match result or a list)
+                        return [ev.n] if f(ev) else []
 
                 return FalsyFilter()
             return f
